@@ -45,6 +45,9 @@ def plan(tier, seed):
             U += u(c, 'random', 1, count=30, cap=12)
         for c in [{'signature': gen.random_sig(rng, 7)}, {'signature': gen.random_sig(rng, 8)}]:
             U += u(c, 'sparse', 1, count=30, cap=12, lazy=True)
+            U += u(c, 'highgrade', 1, count=20, cap=5, lazy=True)
+        for c in ({'p': 5, 'q': 0, 'r': 0}, {'p': 4, 'q': 1, 'r': 1}, {'p': 6, 'q': 0, 'r': 0}):
+            U += u(c, 'highgrade', 1, count=25, cap=5)
         for _ in range(8):
             U += u(gen.random_custom_cfg(rng, rng.choice((2, 3, 3, 4))), 'random', 1, count=25, cap=8)
         for c in gen.NAMED:
